@@ -153,7 +153,7 @@ func TestC41Concurrent(t *testing.T) {
 		t.Skip()
 	}
 
-	kit.SetChecks(400, 4_000)
+	kit.SetChecks(400, 2_000)
 	rapid.Check(t, func(rt *rapid.T) {
 		var c c41Case
 		c.Kind = rapid.SampledFrom([]string{"sequential", "parallel", "default"}).Draw(rt, "kind")
@@ -326,7 +326,7 @@ func TestC41Sequence(t *testing.T) {
 		t.Skip()
 	}
 
-	kit.SetChecks(20_000, 200_000)
+	kit.SetChecks(20_000, 100_000)
 	rapid.Check(t, func(rt *rapid.T) {
 		var c c41SeqCase
 		n := rapid.IntRange(1, 40).Draw(rt, "nops")
